@@ -222,27 +222,39 @@ def fS (q : List Int) : Int × Int → Option Int := fun (a, b) =>
 def abOf (ploidy : Nat) (row : List Int) : List (Int × Int) :=
   if ploidy = 1 then ((0 : Int) :: row).map fun a => (a, 0) else pairs ((0 : Int) :: row)
 
-def plOf (ploidy : Nat) (row pl : List Int) : List Int :=
-  if pl.length < (abOf ploidy row).length ∧ pl.length = 1
-  then List.replicate (abOf ploidy row).length (pl.headD 0) else pl
+/-- the model's per-genotype function when a single-column PL is broadcast -/
+def fMB (pl : List Int) : Int × Int → Option Int := fun (_, b) =>
+  (pl.head?).map fun v => if b = FILL then FILL else v
+
+/-- the specification's per-genotype function when a single-column PL is broadcast -/
+def fSB (pl : List Int) : Int × Int → Option Int := fun (a, b) =>
+  if a = FILL ∨ b = FILL then some FILL else pl.head?
 
 theorem lplRow_eq (ploidy : Nat) (row pl : List Int) :
     lplRow ploidy row pl =
       if pl.length < (abOf ploidy row).length ∧ pl.length ≠ 1 then none
-      else (abOf ploidy row).mapM (fM (plOf ploidy row pl)) := rfl
+      else if pl.length < (abOf ploidy row).length then (abOf ploidy row).mapM (fMB pl)
+      else (abOf ploidy row).mapM (fM pl) := by
+  show (if pl.length < (abOf ploidy row).length ∧ pl.length ≠ 1 then none
+      else (abOf ploidy row).mapM fun (a, b) =>
+        ((if pl.length < (abOf ploidy row).length then (fun _ => pl.head?) else pyIndex pl)
+          (plIndex a b)).map fun v => if b = FILL then FILL else v) = _
+  by_cases h : pl.length < (abOf ploidy row).length
+  · simp only [h, if_true]; rfl
+  · simp only [h, if_false]; rfl
 
 theorem lplSpecRow_eq (ploidy : Nat) (row pl : List Int) :
     lplSpecRow ploidy row pl =
       if pl.length < (abOf ploidy row).length ∧ pl.length ≠ 1 then none
-      else (abOf ploidy row).mapM (fS (plOf ploidy row pl)) := rfl
-
-theorem plOf_length (ploidy : Nat) (row pl : List Int)
-    (h : ¬ (pl.length < (abOf ploidy row).length ∧ pl.length ≠ 1)) :
-    (abOf ploidy row).length ≤ (plOf ploidy row pl).length := by
-  unfold plOf
-  split
-  · simp
-  · omega
+      else if pl.length < (abOf ploidy row).length then (abOf ploidy row).mapM (fSB pl)
+      else (abOf ploidy row).mapM (fS pl) := by
+  show (if pl.length < (abOf ploidy row).length ∧ pl.length ≠ 1 then none
+      else (abOf ploidy row).mapM fun (a, b) =>
+        if a = FILL ∨ b = FILL then some FILL
+        else if pl.length < (abOf ploidy row).length then pl.head? else pl[(plIndex a b).toNat]?) = _
+  by_cases h : pl.length < (abOf ploidy row).length
+  · simp only [h, if_true]; rfl
+  · simp only [h, if_false]; rfl
 
 theorem plIndex_nonneg {a b : Int} (ha : 0 ≤ a) (hb : 0 ≤ b) : 0 ≤ plIndex a b := by
   unfold plIndex
@@ -378,27 +390,72 @@ theorem lpl_haploid_mapM (row : List Int) (hrow : ∀ a ∈ row, 1 ≤ a) (q : L
     · have := hrow _ h; omega
   exact fM_eq_fS_nonneg q h0 (Int.le_refl 0)
 
+/-- broadcast, diploid: fills only at the end and `i ≤ j` in every pair, so `a = FILL → b = FILL` -/
+theorem lpl_diploid_mapM_bc (als : List Int) (k : Nat) (hals : ∀ a ∈ als, 1 ≤ a) (pl : List Int)
+    (hpl : pl.length = 1) :
+    (pairs ((0 : Int) :: (als ++ List.replicate k FILL))).mapM (fMB pl)
+      = (pairs ((0 : Int) :: (als ++ List.replicate k FILL))).mapM (fSB pl) := by
+  obtain ⟨v, hv⟩ : ∃ v, pl.head? = some v := by
+    cases pl with
+    | nil => simp at hpl
+    | cons v _ => exact ⟨v, rfl⟩
+  apply mapM_option_congr
+  intro x hx
+  obtain ⟨i, j, hij, hj, rfl⟩ := (mem_pairs _ x).mp hx
+  have hI := la_getD als k i (by omega)
+  have hJ := la_getD als k j hj
+  generalize ((0 : Int) :: (als ++ List.replicate k FILL)).getD i 0 = a at hI
+  generalize ((0 : Int) :: (als ++ List.replicate k FILL)).getD j 0 = b at hJ
+  have nn : ∀ c : Int, (c = 0 ∨ c ∈ als) → c ≠ FILL := by
+    intro c h
+    rcases h with h | h
+    · unfold FILL; omega
+    · have := hals _ h; unfold FILL; omega
+  simp only [fMB, fSB, hv]
+  rcases hJ with ⟨hjl, hjv⟩ | ⟨hjl, hjv⟩
+  · rcases hI with ⟨_, hiv⟩ | ⟨hil, _⟩
+    · simp [nn a hiv, nn b hjv]
+    · omega
+  · simp [hjv]
+
+theorem lpl_haploid_mapM_bc (row : List Int) (hrow : ∀ a ∈ row, 1 ≤ a) (pl : List Int) :
+    (((0 : Int) :: row).map fun a => (a, (0 : Int))).mapM (fMB pl)
+      = (((0 : Int) :: row).map fun a => (a, (0 : Int))).mapM (fSB pl) := by
+  apply mapM_option_congr
+  intro x hx
+  obtain ⟨a, ha, rfl⟩ := List.mem_map.mp hx
+  have h0 : 0 ≤ a := by
+    rcases List.mem_cons.mp ha with rfl | h
+    · omega
+    · have := hrow _ h; omega
+  have ha' : a ≠ FILL := by unfold FILL; omega
+  have hb' : (0 : Int) ≠ FILL := by decide
+  simp [fMB, fSB, ha', hb']
+
 theorem lplRow_diploid (row pl : List Int)
     (hrow : ∃ (als : List Int) (k : Nat), row = als ++ List.replicate k FILL ∧ ∀ a ∈ als, 1 ≤ a) :
     lplRow 2 row pl = lplSpecRow 2 row pl := by
   obtain ⟨als, k, rfl, hals⟩ := hrow
   rw [lplRow_eq, lplSpecRow_eq]
+  have hab : abOf 2 (als ++ List.replicate k FILL)
+      = pairs ((0 : Int) :: (als ++ List.replicate k FILL)) := by simp [abOf]
+  rw [hab]
   split
   · rfl
   · next h =>
-    have hq := plOf_length 2 _ pl h
-    have hab : abOf 2 (als ++ List.replicate k FILL)
-        = pairs ((0 : Int) :: (als ++ List.replicate k FILL)) := by simp [abOf]
-    rw [hab] at hq ⊢
-    exact lpl_diploid_mapM als k hals _ hq
+    split
+    · next hlt => exact lpl_diploid_mapM_bc als k hals pl (by omega)
+    · next hlt => exact lpl_diploid_mapM als k hals pl (by omega)
 
 theorem lplRow_haploid (row pl : List Int) (hrow : ∀ a ∈ row, 1 ≤ a) :
     lplRow 1 row pl = lplSpecRow 1 row pl := by
   rw [lplRow_eq, lplSpecRow_eq]
+  have hab : abOf 1 row = ((0 : Int) :: row).map fun a => (a, (0 : Int)) := by simp [abOf]
+  rw [hab]
   split
   · rfl
-  · have hab : abOf 1 row = ((0 : Int) :: row).map fun a => (a, (0 : Int)) := by simp [abOf]
-    rw [hab]
-    exact lpl_haploid_mapM row hrow _
+  · split
+    · exact lpl_haploid_mapM_bc row hrow pl
+    · exact lpl_haploid_mapM row hrow pl
 
 end B2Z.LA
